@@ -137,3 +137,12 @@ def composite_inv(self, request_args, old, i):
 @c.ensures
 def composite_post(self, request_args, old, result):
     return result == fold_effects(self.plugins, len(self.plugins), old.request_args)
+
+
+# ---- CompositeAuth.__init__: the composition order IS the argument order -------------------------------
+c = contract(f"{B}:CompositeAuth.__init__", props=["C17"], types={"plugins": "list"}, abstract_unsupported=True)
+
+@c.ensures(note="C17 'each plugin's contribution in composition order': the plugin sequence that authenticate_request folds over is the constructor's "
+                "argument sequence — same plugins, same order, nothing flattened, dropped or reordered (a nested composite stays one element, applied in place)")
+def composite_init_keeps_order(self, plugins):
+    return len(self.plugins) == len(plugins) and list(self.plugins) == list(plugins)
